@@ -70,6 +70,7 @@ func models(c *vf.Ctx) []*chain.Model {
 
 func run(c *vf.Ctx) {
 	c.Set("rule", "explicit-state DFS over block histories: default move = empty block, deviations = every ordered tuple of <=K honest menu actions as one block, or revert(k<=R); deviation bound D, horizon H; states merged by an ID-free canonical key; every state checked against the independent ledger (supply equation, store==ledger, siafund total, exact claims, fees in miner payout, forest roots)")
+	pureSweep(c, chain.NewKeys(c.Seed))
 	var total int
 	for _, m := range models(c) {
 		if c.Expired() {
